@@ -38,6 +38,7 @@ type c08Scenario struct {
 	Seed      int64   `json:"seed"`
 	Order     string  `json:"order"`   // fifo | lifo | random : release order of parked sends
 	Stale     bool    `json:"stale"`   // staleness scenario: no gating, measure add -> send delay
+	Contend   bool    `json:"contend"` // every second Add queues on the batcher mutex BEHIND the heartbeat while the open batch has expired
 }
 
 type c08Run struct {
@@ -193,6 +194,34 @@ func c08RunScenario(sc *c08Scenario) *c08Run {
 		go func(a int) {
 			defer wg.Done()
 			for i := a; i < n; i += adders {
+				if sc.Contend && i%2 == 1 {
+					// The open batch holds the previous event.  The batcher mutex is kept busy for longer than the heartbeat
+					// period and the flush time-out, so the heartbeat is waiting for it and the batch has expired; then this Add
+					// queues up behind the heartbeat.  A mutex contended for more than 1 ms is handed over in FIFO order:
+					// heartbeat, Add, and then whoever comes back (a heartbeat that works in two critical sections).
+					b.mu.Lock()
+					time.Sleep(time.Duration(sc.FlushMs+130) * time.Millisecond)
+					done := make(chan struct{})
+					go func() {
+						amu.Lock()
+						addedAt[i+1] = time.Now()
+						amu.Unlock()
+						r.log("Out", "b", "main", "id", i+1)
+						b.Add(events[i])
+						close(done)
+					}()
+					time.Sleep(20 * time.Millisecond)
+					b.mu.Unlock()
+					b.mu.Lock()
+					time.Sleep(2 * time.Millisecond)
+					b.mu.Unlock()
+					select {
+					case <-done:
+					case <-time.After(10 * time.Second):
+						return
+					}
+					continue
+				}
 				addMu.Lock()
 				amu.Lock()
 				addedAt[i+1] = time.Now()
@@ -292,13 +321,26 @@ func TestVerifC08StopChild(t *testing.T) {
 		committed := map[*Event]int{}
 		sent := map[*Event]bool{}
 		var mu sync.Mutex
-		ctl := &c08StopCtl{mu: &mu, committed: committed}
+		returned := map[*Event]bool{}
+		ctl := &c08StopCtl{mu: &mu, committed: committed, returned: returned, last: map[SourceID]uint64{}, trial: tr}
 		workers := 1 + rng.Intn(3)
+		slow := time.Duration(0) // some trials: sends take a while, so batches are in flight when Stop comes
+		if tr%2 == 1 {
+			slow = time.Duration(50+rng.Intn(400)) * time.Microsecond
+		}
 		opts := BatcherOptions{PipelineName: "verif_c08s", OutputType: "verif",
 			OutFn: func(_ *WorkerData, b *Batch) {
 				mu.Lock()
 				for _, e := range b.events {
 					sent[e] = true
+				}
+				mu.Unlock()
+				if slow > 0 {
+					time.Sleep(slow)
+				}
+				mu.Lock()
+				for _, e := range b.events {
+					returned[e] = true
 				}
 				mu.Unlock()
 			},
@@ -310,17 +352,18 @@ func TestVerifC08StopChild(t *testing.T) {
 		stop := make(chan struct{})
 		for a := 0; a < 8; a++ {
 			wg.Add(1)
-			go func() {
+			go func(a int) {
 				defer wg.Done()
-				for {
+				for n := uint64(1); ; n++ {
 					select {
 					case <-stop:
 						return
 					default:
 					}
-					b.Add(&Event{Size: 1})
+					// one adder's events are added one after another: they must be committed in that order
+					b.Add(&Event{Size: 1, SourceID: SourceID(a + 1), SeqID: n})
 				}
-			}()
+			}(a)
 		}
 		time.Sleep(time.Duration(rng.Intn(400)) * time.Microsecond)
 		b.Stop()
@@ -340,9 +383,23 @@ func TestVerifC08StopChild(t *testing.T) {
 type c08StopCtl struct {
 	mu        *sync.Mutex
 	committed map[*Event]int
+	returned  map[*Event]bool
+	last      map[SourceID]uint64
+	trial     int
 }
 
-func (c *c08StopCtl) Commit(e *Event) { c.mu.Lock(); c.committed[e]++; c.mu.Unlock() }
+func (c *c08StopCtl) Commit(e *Event) {
+	c.mu.Lock()
+	c.committed[e]++
+	if e.SeqID < c.last[e.SourceID] {
+		fmt.Printf("C08STOP out_of_order trial=%d adder=%d event=%d after=%d\n", c.trial, e.SourceID, e.SeqID, c.last[e.SourceID])
+	}
+	c.last[e.SourceID] = e.SeqID
+	if !c.returned[e] {
+		fmt.Printf("C08STOP before_send_return trial=%d adder=%d event=%d\n", c.trial, e.SourceID, e.SeqID)
+	}
+	c.mu.Unlock()
+}
 func (c *c08StopCtl) Error(string)    {}
 
 func TestVerifC08Stop(t *testing.T) {
@@ -355,7 +412,14 @@ func TestVerifC08Stop(t *testing.T) {
 	b, err := cmd.CombinedOutput()
 	txt := string(b)
 	res := map[string]interface{}{"exit_error": fmt.Sprint(err), "done": strings.Contains(txt, "C08STOP done"),
-		"bad_commits": strings.Count(txt, "C08STOP bad_commit"), "panic": ""}
+		"bad_commits": strings.Count(txt, "C08STOP bad_commit"), "panic": "",
+		"out_of_order": strings.Count(txt, "C08STOP out_of_order"), "before_send_return": strings.Count(txt, "C08STOP before_send_return"), "example": ""}
+	for _, k := range []string{"C08STOP out_of_order", "C08STOP before_send_return"} {
+		if i := strings.Index(txt, k); i >= 0 {
+			res["example"] = strings.SplitN(txt[i:], "\n", 2)[0]
+			break
+		}
+	}
 	if i := strings.Index(txt, "panic: "); i >= 0 {
 		end := i + 1500
 		if end > len(txt) {
